@@ -150,6 +150,16 @@ theorem writeView_spec (w : W) (i : Int) (row : Row) (w' : W) (hi : Inv w) (hr :
     · simp only [W.view]
       exact view_write _ _ _ _ _ (by simp only [W.capacity] at h1; exact h1) (by omega)
 
+theorem writeView_frame (w : W) (i : Int) (row : Row) (w' : W) (h : writeView w i row = .ok w') :
+    w'.timing = w.timing ∧ w'.count = w.count ∧ w'.kind = w.kind ∧ w'.props = w.props ∧ w'.start = w.start
+    ∧ w'.dtype = w.dtype ∧ w'.scale = w.scale ∧ w'.ncols = w.ncols ∧ w'.namesCache = w.namesCache := by
+  unfold writeView at h
+  simp only at h
+  generalize (if i < 0 then i + (w.count : Int) else i) = j at h
+  split at h
+  · cases h
+  · injection h with h; subst h; exact ⟨rfl, rfl, rfl, rfl, rfl, rfl, rfl, rfl, rfl⟩
+
 /-- get_raw_data / get_data(start, count) is the corresponding sub-list of the view, or a ValueError -/
 theorem getData_spec (w : W) (start count : Option Int) :
     (∀ rows, getData w start count = .ok rows →
